@@ -260,7 +260,7 @@ def h_any_length(kind, op):
         def inv(it, fr):
             if any(n[0] == "early-exit" for n in ctx.notes):
                 return z3.BoolVal(False)
-            cur = it.loop_value(fr, loop_of[1])
+            cur = it.loop_value(fr, loop_of[1]) if fr.func is not None and fr.func.qualname == loop_of[0] else it.loop_value(fr, 0)
             adds = [e[1] for e in ctx.effects[mark:] if e[0] == "mutate" and e[1][0] is data and e[1][1] in ("append", "add")]
             if not (isinstance(cur, Obj) and cur.tag == "arbitrary-element"):
                 return z3.BoolVal(not adds and not rel)
@@ -268,6 +268,7 @@ def h_any_length(kind, op):
             ok = len(adds) == 1 and in_data and len(rel) == 1 and rel[0][0] is owner and rel[0][1] is cur and rel[0][2] is False
             return z3.BoolVal(ok)
         vm.spec.loops[loop_of] = LoopSpec(inv=inv)
+        vm.spec.stream_loops["assigned-elements"] = vm.spec.loops[loop_of]
         if op == "assign":
             vm.call_method(desc, "__set__", owner, source)
             cleared = [e[1] for e in ctx.effects[mark:] if e[0] == "mutate" and e[1][0] is data and e[1][1] == "clear"]
